@@ -66,6 +66,7 @@ impl TpchGenerator {
             row_counts.orders,
             row_counts.part,
             row_counts.supplier,
+            row_counts.partsupp,
         );
         ctx.register_table("lineitem", lineitem_schema(), vec![lineitem_batch]);
     }
@@ -100,6 +101,7 @@ impl TpchGenerator {
             row_counts.orders,
             row_counts.part,
             row_counts.supplier,
+            row_counts.partsupp,
         );
 
         // Write each table
@@ -475,6 +477,7 @@ impl TpchGenerator {
         order_count: usize,
         part_count: usize,
         supp_count: usize,
+        partsupp_count: usize,
     ) -> RecordBatch {
         let returnflags = ['N', 'R', 'A'];
         let linestatus = ['O', 'F'];
@@ -518,8 +521,13 @@ impl TpchGenerator {
             }
 
             l_orderkey.push(current_order);
-            l_partkey.push(((i % part_count) + 1) as i64);
-            l_suppkey.push(((i % supp_count) + 1) as i64);
+            // Use the keys of an existing partsupp row (row j holds
+            // (j % parts + 1, j % suppliers + 1)) so that (l_partkey, l_suppkey) is a
+            // valid composite key for every scale factor, not only when
+            // parts = 20 * suppliers exactly.
+            let ps_row = i % partsupp_count;
+            l_partkey.push(((ps_row % part_count) + 1) as i64);
+            l_suppkey.push(((ps_row % supp_count) + 1) as i64);
             l_linenumber.push(line_num);
             line_num += 1;
 
